@@ -445,7 +445,8 @@ impl FiberIoUtils {
                 let processor = processor.clone();
                 async move { processor(path).await }
             })
-            .buffer_unordered(max_concurrent)
+            // `buffered`, not `buffer_unordered`: result i must belong to paths[i]
+            .buffered(max_concurrent)
             .collect::<Vec<_>>()
             .await;
 
